@@ -64,7 +64,7 @@ func equal(elems []any, nonTerminals []lex.Token, defaultField string) ([]any, [
 		return elems, nonTerminals, false
 	}
 
-	if literals, ok := isChainedOrLiterals(value); ok && len(literals) > 1 {
+	if literals, ok := isChainedOrLiterals(value, defaultField); ok && len(literals) > 1 {
 		elems = []any{
 			expr.IN(
 				term,
@@ -83,10 +83,13 @@ func equal(elems []any, nonTerminals []lex.Token, defaultField string) ([]any, [
 	return elems, drop(nonTerminals, 1), true
 }
 
-func isChainedOrLiterals(in *expr.Expression) (out []*expr.Expression, ok bool) {
+func isChainedOrLiterals(in *expr.Expression, defaultField string) (out []*expr.Expression, ok bool) {
 	if in == nil {
 		return out, false
 	}
+
+	// the OR reducer already scoped its bare literals to the default field, look through that
+	in = unwrapLiteral(in, defaultField)
 
 	if in.Op == expr.Literal {
 		return []*expr.Expression{in}, true
@@ -102,8 +105,8 @@ func isChainedOrLiterals(in *expr.Expression) (out []*expr.Expression, ok bool) 
 			return out, false
 		}
 
-		l, isLLiterals := isChainedOrLiterals(left)
-		r, isRLiterals := isChainedOrLiterals(right)
+		l, isLLiterals := isChainedOrLiterals(left, defaultField)
+		r, isRLiterals := isChainedOrLiterals(right, defaultField)
 		return append(l, r...), isLLiterals && isRLiterals
 	}
 
@@ -344,7 +347,7 @@ func must(elems []any, nonTerminals []lex.Token, defaultField string) ([]any, []
 	}
 
 	// we consumed 1 terminal, the +
-	return []any{expr.MUST(rest)}, drop(nonTerminals, 1), true
+	return []any{expr.MUST(wrapLiteral(rest, defaultField))}, drop(nonTerminals, 1), true
 }
 
 func mustNot(elems []any, nonTerminals []lex.Token, defaultField string) ([]any, []lex.Token, bool) {
@@ -362,7 +365,7 @@ func mustNot(elems []any, nonTerminals []lex.Token, defaultField string) ([]any,
 		return elems, nonTerminals, false
 	}
 	// we consumed one terminal, the -
-	return []any{expr.MUSTNOT(rest)}, drop(nonTerminals, 1), true
+	return []any{expr.MUSTNOT(wrapLiteral(rest, defaultField))}, drop(nonTerminals, 1), true
 }
 
 func fuzzy(elems []any, nonTerminals []lex.Token, defaultField string) ([]any, []lex.Token, bool) {
@@ -379,7 +382,7 @@ func fuzzy(elems []any, nonTerminals []lex.Token, defaultField string) ([]any, [
 		}
 
 		// we consumed one terminal, the ~
-		return []any{expr.FUZZY(rest, 1)}, drop(nonTerminals, 1), true
+		return []any{expr.FUZZY(wrapLiteral(rest, defaultField), 1)}, drop(nonTerminals, 1), true
 	}
 
 	if len(elems) != 3 {
@@ -408,7 +411,7 @@ func fuzzy(elems []any, nonTerminals []lex.Token, defaultField string) ([]any, [
 	}
 
 	// we consumed one terminal, the ~
-	return []any{expr.FUZZY(rest, idistance)}, drop(nonTerminals, 1), true
+	return []any{expr.FUZZY(wrapLiteral(rest, defaultField), idistance)}, drop(nonTerminals, 1), true
 }
 
 func boost(elems []any, nonTerminals []lex.Token, defaultField string) ([]any, []lex.Token, bool) {
@@ -425,7 +428,7 @@ func boost(elems []any, nonTerminals []lex.Token, defaultField string) ([]any, [
 		}
 
 		// we consumed one terminal, the ^
-		return []any{expr.BOOST(rest, 1.0)}, drop(nonTerminals, 1), true
+		return []any{expr.BOOST(wrapLiteral(rest, defaultField), 1.0)}, drop(nonTerminals, 1), true
 	}
 
 	if len(elems) != 3 {
@@ -458,7 +461,7 @@ func boost(elems []any, nonTerminals []lex.Token, defaultField string) ([]any, [
 	}
 
 	// we consumed one terminal, the ^
-	return []any{expr.BOOST(rest, fpower)}, drop(nonTerminals, 1), true
+	return []any{expr.BOOST(wrapLiteral(rest, defaultField), fpower)}, drop(nonTerminals, 1), true
 }
 
 func rangeop(elems []any, nonTerminals []lex.Token, defaultField string) ([]any, []lex.Token, bool) {
@@ -550,8 +553,27 @@ func toPositiveFloat(in string) (f float64, err error) {
 // we need this because we want to support lucene expressions like a:b AND "c" which needs a default
 // field to compare "c" against to be valid.
 func wrapLiteral(lit *expr.Expression, field string) *expr.Expression {
-	if lit.Op == expr.Literal && field != "" {
+	if isTerm(lit) && field != "" {
 		return expr.Eq(expr.Column(field), lit)
 	}
 	return lit
+}
+
+// unwrapLiteral undoes wrapLiteral for a plain literal.
+func unwrapLiteral(in *expr.Expression, field string) *expr.Expression {
+	if field == "" || in.Op != expr.Equals {
+		return in
+	}
+
+	column, ok := in.Left.(*expr.Expression)
+	if !ok || column.Op != expr.Literal || column.Left != expr.Column(field) {
+		return in
+	}
+
+	value, ok := in.Right.(*expr.Expression)
+	if !ok || value.Op != expr.Literal {
+		return in
+	}
+
+	return value
 }
